@@ -474,6 +474,9 @@ func runCheck(id, tier string) int {
 		if prop != id && !def.Owns(prop) {
 			// a violation of another property observed by a shared harness: it is that
 			// property's check that reports it.
+			if os.Getenv("VF_VERBOSE") != "" || os.Getenv("VF_SHOW_FOREIGN") != "" {
+				fmt.Fprintf(os.Stderr, "  (left to %s's check: %s)\n", prop, k)
+			}
 			continue
 		}
 		matched := false
